@@ -494,6 +494,14 @@ def decide(prop, spec, results, tier, seed, t0):
             if v.get('secondary'):
                 continue
             mine = [c for c in v['conjs'] if prop in props_of(c, v.get('sig', {}), r['group'])]
+            if not mine:
+                # a violated conjunct none of whose properties has this group among its groups would never be
+                # reported by any check: it is reported here (the group belongs to this property's check)
+                mine = [c for c in v['conjs']
+                        if not any(r['group'] in PROPS[p]['groups'] for p in props_of(c, v.get('sig', {}), r['group']) if p in PROPS)]
+                # (unless it is a listed finding of the property it belongs to)
+                if mine and any(match_known(p, v, known) for c in mine for p in props_of(c, v.get('sig', {}), r['group'])):
+                    mine = []
             for c in v['conjs']:
                 for p in props_of(c, v.get('sig', {}), r['group']):
                     if p != prop:
